@@ -390,6 +390,9 @@ pub enum Dispatcher {
     Chained,
 }
 
+/// First token of a branch body that must not start with the POP of the dispatcher's selector word.
+pub const KEEP_SELECTOR: Tok = Tok::Mark(255);
+
 /// Places the branch bodies behind a dispatcher.
 pub fn program(branches: &[Vec<Tok>], d: Dispatcher) -> Vec<u8> {
     let n = branches.len();
@@ -418,6 +421,11 @@ pub fn program(branches: &[Vec<Tok>], d: Dispatcher) -> Vec<u8> {
     };
     for i in order {
         t.push(Tok::Label(i as u8));
+        if branches[i].first() == Some(&KEEP_SELECTOR) {
+            // a body that consumes the word the dispatcher left on the stack (an internal function with a stack argument)
+            t.extend(branches[i].iter().skip(1).cloned());
+            continue;
+        }
         t.push(o(op::POP)); // the selector left on the stack by the dispatcher
         t.extend(branches[i].iter().cloned());
         // every body ends with RETURN or STOP already
